@@ -12,8 +12,15 @@ LEVEL = "exploration"
 EXACT_KINDS = {"cmp-exact", "spaceship-exact", "sum", "diff", "mod"}
 
 
+GROUP_TEXT = {"cmp": "the six comparisons", "add": "+ and -", "mod": "%", "ss": "<=>",
+              "cx": "the operators in a constant expression (with the exact values for integral reps)"}
+
+
 def _probe(run, insts, cfgs):
-    mism, nacc, nrej = [], 0, 0
+    """Which operator groups compile.  The only refusal the statement allows is the implicit-conversion policy (integral common
+    rep, factor K with 2147*K > max): an instance the policy admits must compile -> violation otherwise.  The converse
+    (admitted although the policy model says no) is C06's subject: logged as a mismatch only."""
+    mism, nacc, nrej, nviol = [], 0, 0, 0
     for cfg in cfgs:
         ps = S.probes_for(insts, cfg)
         res, _ = core.run_probes(cfg, ps, os.path.join(run.wd, "probes_" + cfg.name), "c08p", flags=cflags(cfg))
@@ -22,22 +29,41 @@ def _probe(run, insts, cfgs):
         for p in ps:
             v, diag = res[p.pid]
             it = insts[p.meta["inst"]]
-            it.ops[cfg.name][p.meta["group"]] = (v == "accept")
+            g = p.meta["group"]
+            it.ops[cfg.name][g] = (v == "accept")
             nacc += v == "accept"
             nrej += v == "reject"
-            if v != p.expect:
-                mism.append({"config": str(cfg), "instance": it.desc(), "group": p.meta["group"],
+            if v == p.expect:
+                continue
+            if p.expect == "accept":
+                key = "C08:does-not-compile:%s:%s:%s" % (g, it.desc(), cfg.name)
+                what = ("%s: %s of %s(%s) and %s(%s) do not compile although the common rep %s admits both factors (%s, %s) under "
+                        "the implicit-conversion policy: %s" % (cfg, GROUP_TEXT[g], it.u1.name, it.r1, it.u2.name, it.r2, it.c,
+                                                                  it.k1 or "irrational", it.k2 or "irrational", diag[:200]))
+                rp = None
+                if run.match_known(key) is None and nviol < 60:
+                    rp = run.write_replay(key, {"kind": "probe", "config": str(cfg), "code": p.code, "expected": "accept",
+                                                "observed": v, "what": what})
+                run.violation(key, what, rp)
+                nviol += 1
+            else:
+                mism.append({"config": str(cfg), "instance": it.desc(), "group": g,
                              "predicted": p.expect, "observed": v, "diag": diag[:160]})
-    return mism, nacc, nrej
+    return mism, nacc, nrej, nviol
 
 
-def _prepare(insts, radius):
+def _prepare(insts, radius, lat_step, dense, dense2_labels=()):
     for it in insts:
         if it.flt:
             continue
         it.iv1 = S.window_alphabet(it.r1, it.k1, it.c, it.p, radius)
         it.iv2 = S.window_alphabet(it.r2, it.k2, it.c, it.p, radius)
+        it.lat1 = S.lattice_alphabet(it.r1, it.k1, lat_step)
+        it.lat2 = S.lattice_alphabet(it.r2, it.k2, lat_step)
         it.square8 = True
+        it.dense = 0
+        if 16 in (core.BITS[it.r1], core.BITS[it.r2]):
+            it.dense = 2 if it.label in dense2_labels else dense
 
 
 def _report(run, cfg, build, insts_by_id, viols, flags):
@@ -64,14 +90,13 @@ def _report(run, cfg, build, insts_by_id, viols, flags):
         lhs, rhs = ("%s(%s{%s})" % (it.u1.name, it.r1, v["x1"]), "%s(%s{%s})" % (it.u2.name, it.r2, v["x2"]))
         if v["order"] == 1:
             lhs, rhs = rhs, lhs
-        what = ("%s: %s %s %s gives %s, exact/required %s (common unit = U/%s resp. U/%s, common rep %s) [%s]"
-                % (v["kind"], lhs, v["op"], rhs, v["got"], v["want"], it.k1, it.k2, it.c, build))
+        what = ("%s: %s %s %s gives %s, exact/required %s (common unit = U1/%s resp. U2/%s, common rep %s) [%s]"
+                % (v["kind"], lhs, v["op"], rhs, v["got"], v["want"], it.k1 or it.kf[0][0], it.k2 or it.kf[1][0], it.c, build))
         rp = None
         if run.match_known(key) is None:
             rp = run.write_replay(key, {
                 "kind": "value", "config": str(cfg), "flags": list(flags), "what": what, "observed": v,
-                "instance": {"label": it.label, "u1": [it.u1.name, it.u1.cpp, str(it.u1.frac)],
-                             "u2": [it.u2.name, it.u2.cpp, str(it.u2.frac)], "r1": it.r1, "r2": it.r2,
+                "instance": {"label": it.label, "u1": it.u1.rec(), "u2": it.u2.rec(), "r1": it.r1, "r2": it.r2,
                              "ops": it.ops[cfg.name]},
                 "x1": v["x1"], "x2": v["x2"]})
         run.violation(key, what, rp)
@@ -79,22 +104,21 @@ def _report(run, cfg, build, insts_by_id, viols, flags):
     return n
 
 
-def _check_units(run, cfg, build, insts_by_id, stats):
+def _check_units(run, cfg, build, insts_by_id, stats, counters):
     for s in stats:
         it = insts_by_id[s["inst"]]
-        want = model.mag_of_fraction(it.g)
         for fld, okf in (("sum_unit", "rep_ok"), ("mod_unit", "mod_rep_ok")):
             if not s[okf]:
-                key = "C08:result-rep:%s:%s" % (fld.split("_")[0], it.desc())
-                run.violation(key, "%s: the result rep of %s is not the promoted common rep %s [%s]"
-                              % (it.desc(), fld.split("_")[0], it.p, build))
+                # the statement fixes the value and the unit of the result, not its rep: recorded only.  (A result rep too
+                # narrow for an in-statement result shows up as a wrong value in the sweep.)
+                counters["result_rep_is_not_the_promoted_common_rep"] += 1
             if s[fld] is None:
                 continue
             got = model.mag_from_readout(s[fld]["mag"])
-            if model.mag_key(got) != model.mag_key(want):
+            if model.mag_key(got) != model.mag_key(it.gmag):
                 key = "C08:result-unit:%s:%s" % (fld.split("_")[0], it.desc())
-                run.violation(key, "%s: result of %s is expressed in a unit of magnitude %s, the common (gcd) unit "
-                              "has %s [%s]" % (it.desc(), fld.split("_")[0], s[fld]["mag"], it.g, build))
+                run.violation(key, "%s: result of %s is expressed in a unit of magnitude %s, the common unit "
+                              "has %s [%s]" % (it.desc(), fld.split("_")[0], s[fld]["mag"], sorted(model.mag_key(it.gmag)), build))
 
 
 def _selftest(run):
@@ -103,7 +127,9 @@ def _selftest(run):
     it.k1 += 1
     it.ops[core.GXX14.name] = {"cmp": True, "add": True, "mod": True}
     it.iv1 = it.iv2 = [(-3, 3)]
+    it.lat1 = it.lat2 = []
     it.square8 = False
+    it.dense = 0
     stats, viols = S.build_and_run(run.wd, core.GXX14, "selftest", [it], [], 0, (0, 0, 1), nsplit=1)
     kinds = {v["kind"] for v in viols}
     if not {"cmp-exact", "sum", "diff", "mod"} <= kinds:
@@ -117,31 +143,45 @@ def check(run):
     if getattr(run, "selftest", False):
         run.cov["selftest_perturbed_oracle_mismatches"] = _selftest(run)
     insts = S.instances(tier)
-    probe_cfgs = core.CORNERS if quick else core.CFG6
-    mism, nacc, nrej = _probe(run, insts, probe_cfgs)
+    probe_cfgs = [core.GXX14, core.GXX20, core.CLANG20] if quick else core.CFG6
+    mism, nacc, nrej, n_nocompile = _probe(run, insts, probe_cfgs)
     radius = 12 if quick else 64
     fexp = (-12, 40, 4) if quick else (-20, 60, 2)
-    _prepare(insts, radius)
-    sweeps = [(core.GXX14, [], "g++-14"), (core.CLANG20, S.UBSAN, "clang-20-ubsan")]
+    # (config, flags, build name, full) — full = the tier's own radius / lattice / dense alphabets; the remaining
+    # configurations of the thorough tier repeat the quick alphabets (the statement quantifies over C++14/17/20 on both compilers)
+    sweeps = [(core.GXX14, [], "g++-14", True), (core.CLANG20, S.UBSAN, "clang-20-ubsan", True), (core.GXX20, [], "g++-20", True)]
     if not quick:
-        sweeps.insert(1, (core.GXX20, [], "g++-20"))
+        sweeps += [(core.CLANG14, [], "clang-14", False), (core.CFG6[1], [], "g++-17", False), (core.CFG6[4], [], "clang-17", False)]
     by_id = {it.id: it for it in insts}
     allstats, nviol, triples, trs = [], 0, 0, []
     done, cut = [], []
+    counters = {"result_rep_is_not_the_promoted_common_rep": 0}
     disagree = [it.desc() for it in insts
                 if len({tuple(sorted((k, v) for k, v in it.ops[c.name].items() if k != "ss")) for c in probe_cfgs}) > 1]
-    for cfg, flags, build in sweeps:
+    prepared = None
+    for n_build, (cfg, flags, build, full) in enumerate(sweeps):
         if run.time_left() < 300:
             cut.append(build)
             continue
-        acc = [it for it in insts if it.ops[cfg.name].get("cmp") and it.ops[cfg.name].get("add")]
-        if len(acc) < 0.6 * len(insts):
+        mode = (tier, full, n_build == 0)
+        if mode != prepared:
+            if quick or not full:
+                _prepare(insts, 12, 3, 1)
+            else:     # thorough: the dense 16-bit x whole-alphabet product once (first build), for four integer/rational ratios
+                _prepare(insts, radius, 1, 1, ("12", "3", "1000", "5/9") if n_build == 0 else ())
+            prepared = mode
+        acc = [it for it in insts if it.ops[cfg.name].get("cmp")]
+        if quick and n_build == 2:
+            acc = [it for it in acc if it.in_mix]      # quick: the third build (g++ C++20, for <=> under g++) sweeps the rep-pair mix only
+        if len(acc) < 0.6 * len(insts) and not n_nocompile:
             raise core.InfraError("vacuity guard: only %d of %d instances accepted under %s (mismatches: %s)"
                                   % (len(acc), len(insts), cfg, mism[:3]))
-        for lab in {it.label for it in insts}:
-            if not any(it.label == lab and it.r1 != it.r2 and not it.flt for it in acc):
+        for lab in {it.label for it in insts if it.rational and it.predicted() and not it.flt and it.r1 != it.r2}:
+            if not any(it.label == lab and it.r1 != it.r2 and not it.flt for it in acc) and not n_nocompile:
                 raise core.InfraError("vacuity guard: no mixed-width integral instance accepted for ratio %s" % lab)
-        stats, viols = S.build_and_run(run.wd, cfg, build, acc, flags, radius, fexp, nsplit=core.NCPU * 2,
+        if not acc:
+            continue
+        stats, viols = S.build_and_run(run.wd, cfg, build, acc, flags, radius, fexp if full else (-12, 40, 4), nsplit=core.NCPU * 2,
                                        timeout=max(300, min(3000, run.time_left())))
         trapped = any(v["kind"] == "trap" for v in viols)
         if len(stats) != len(acc) and not trapped:
@@ -149,70 +189,100 @@ def check(run):
         vac = [by_id[s["inst"]].desc() for s in stats if s["in_pre"] == 0 or s["ops"] == 0]
         if vac:
             raise core.InfraError("vacuous instances (no pair inside the precondition): %s" % vac[:3])
+        for grp, fld in (("mod", "mod_unit"), ("add", "sum_unit")):
+            if not any(s[fld] is not None for s in stats) and not n_nocompile:
+                raise core.InfraError("vacuity guard: no instance evaluated the %s group under %s" % (grp, cfg))
+        if cfg.std == "c++20" and not any(by_id[s["inst"]].ops[cfg.name].get("ss") for s in stats) and not n_nocompile:
+            raise core.InfraError("vacuity guard: <=> was evaluated on no instance under %s" % cfg)
         nviol += _report(run, cfg, build, by_id, viols, flags)
-        _check_units(run, cfg, build, by_id, stats)
+        _check_units(run, cfg, build, by_id, stats, counters)
         allstats += [dict(s, build=build) for s in stats]
-        ch, ts, tv = S.run_transitivity(run.wd, cfg, tier)
-        nviol += _report(run, cfg, build, by_id, tv, flags)
-        triples += sum(t["triples"] for t in ts)
-        trs += [dict(t, build=build) for t in ts]
+        ch, ts, tv, err = S.run_transitivity(run.wd, cfg, tier if full else "quick")
+        if err:
+            if not n_nocompile:
+                raise core.InfraError("C08 transitivity TU failed to build:\n%s" % err[-3000:])
+        else:
+            nviol += _report(run, cfg, build, by_id, tv, flags)
+            triples += sum(t["triples"] for t in ts)
+            trs += [dict(t, build=build) for t in ts]
         done.append(build)
     if not done:
         raise core.InfraError("deadline reached before any sweep configuration ran")
     first = [s for s in allstats if s["build"] == done[0]]
     nontriv = sum(1 for s in first if s["lt"] and s["eq"] and s["gt"])
     prem = sum(t["premises"] for t in trs)
-    if prem == 0:
+    if prem == 0 and not n_nocompile:
         raise core.InfraError("transitivity cube: no premise ever held")
+    tot = lambda k: sum(s[k] for s in allstats)
     run.cov.update({
-        "evaluations": sum(s["in_pre"] for s in allstats) + triples,
-        "operator_evaluations": sum(s["ops"] for s in allstats),
-        "pairs_generated": sum(s["pairs"] for s in allstats),
-        "pairs_skipped_scaling_overflows_common_rep": sum(s["skip_pre"] for s in allstats),
-        "results_skipped_not_representable_in_result_rep": sum(s["skip_res"] for s in allstats),
-        "mod_skipped_zero_divisor_or_min_by_minus_one": sum(s["skip_mod"] for s in allstats),
-        "float_comparisons_inside_4ulp_band_not_judged": sum(s["band"] for s in allstats),
-        "ubsan_reports": sum(s["ubsan"] for s in allstats),
+        "evaluations": tot("in_pre") + triples + nacc + nrej,
+        "operator_evaluations": tot("ops"),
+        "pairs_generated": tot("pairs"),
+        "pairs_skipped_scaling_overflows_common_rep": tot("skip_pre"),
+        "results_skipped_not_representable_in_result_rep": tot("skip_res"),
+        "mod_skipped_zero_divisor_or_min_by_minus_one": tot("skip_mod"),
+        "float_comparisons_inside_4ulp_band_not_judged": tot("band"),
+        "float_pairs_with_exact_scaled_operands_judged_exactly": tot("tight"),
+        "float_pairs_with_nan_or_infinite_operand_only_spaceship_consistency_judged": tot("nonfinite"),
+        "float_pairs_with_nan_or_infinite_operand_where_six_operators_differ_from_ieee_not_judged": tot("nonfinite_not_ieee"),
+        "ubsan_reports": tot("ubsan"),
         "instances_candidates": len(insts),
+        "instances_admitted_by_policy_model": sum(1 for it in insts if it.predicted()),
         "instances_swept_per_build": {b: sum(1 for s in allstats if s["build"] == b) for b in done},
-        "unit_pairs": [l for (l, _, _) in S.unit_pairs(tier)],
+        "unit_pairs": [l for (l, _, _, _) in S.unit_pairs(tier)],
         "probes_accept": nacc, "probes_reject": nrej,
+        "operator_groups_not_compiling_although_policy_admits_them": n_nocompile,
+        "constant_expression_probes": sum(1 for it in insts if it.predicted()) * len(probe_cfgs),
         "domain_mismatch_count": len(mism), "domain_mismatch": mism[:12],
         "probe_config_disagreement": disagree[:10],
         "transitivity_triples": triples, "transitivity_premises_true": prem,
         "transitivity_chains": sorted({t["chain"] for t in trs}),
         "window_radius": radius, "float_alphabet_exponents": list(fexp),
         "sweep_builds": done, "sweep_builds_cut_by_deadline": cut,
+        "sweep_builds_with_quick_alphabets": [b for (_, _, b, full) in sweeps if not full and b in done],
         "probe_configs": [str(c) for c in probe_cfgs],
         "distinct_nontrivial": nontriv,
         "raw_violation_records": nviol,
-        "rule": "instance = (unit pair from the ratio grid) x (ordered rep pair of equal signedness from "
-                "{int16,int32,int64}, {uint16,uint32,uint64}, {float,double}) whose operators compile (observed by "
-                "accept/reject probes per configuration; predicted by the 2147-threshold policy). Value pairs per "
-                "instance: the complete 8-bit square (65536), window x window over breakpoint windows (0, +-1, "
-                "min, max, 2^15/16/31/32/63, exact overflow thresholds of the scaling in the common rep and in each "
-                "narrower rep, half the result range) and the near-diagonal (other operand within +-2 of the equal "
-                "quantity). On every pair inside the precondition all six comparisons, <=> (C++20 builds), +, -, % are "
-                "evaluated in BOTH argument orders and compared with exact __int128 / __float128 arithmetic in the "
-                "model's gcd unit. An instance is non-trivial when <, == and > were each observed true on it.",
+        "rule": "instance = (unit pair from the generated ratio x shape grid: integer / rational / 1 / irrational ratios x plain, "
+                "prefixed, scaled, power, quotient, dimensionless, origin-carrying units) x (ordered rep pair of equal signedness from "
+                "{int8,int16,int32,int64}, {uint8,uint16,uint32,uint64}, {float,double,long double}; shape pairs use a 14-pair mix "
+                "in the quick tier). An instance the implicit-conversion policy admits (factor 1 or 2147*K <= max of the common rep; "
+                "floating reps always) MUST compile for every operator group, also inside constant expressions. Value pairs per "
+                "integral instance: the complete 8-bit square (65536), window x window over breakpoint windows (0, +-1, min, max, "
+                "2^7/8/15/16/31/32/63, exact overflow thresholds of the scaling in the common rep and in each narrower rep, half the "
+                "result range), lattice x lattice over the enumerated mid-range lattice {2^j, 3*2^(j-1), 5*2^(j-2), 2^j/K, "
+                "3*2^(j-1)/K} +-1, the near-diagonal of both (other operand within +-2 of the equal quantity), and every value of a "
+                "16-bit operand against the other operand's extremes, 0, 1 and nearest values (thorough, four ratios: against the "
+                "other operand's whole window alphabet). Floating instances: the 8-bit square, 0/-0/+-1/denorm_min/NaN/+-inf, eight "
+                "mantissas x sign x exponents (incl. smallest normal, subnormals, and just below max(C)/4/K), near-diagonal both "
+                "ways. On every pair inside the precondition all six comparisons, <=> (C++20 builds), +, -, % are evaluated in BOTH "
+                "argument orders and compared with exact __int128 / __float128 arithmetic in the model's common unit. An instance "
+                "is non-trivial when <, == and > were each observed true on it.",
         "exhaustive": not cut,
-        "exhaustive_note": "exhaustive over the 8-bit square of every accepted instance and over the stated window "
-                           "alphabets; 16/32/64-bit values outside the windows are not covered; transitivity: full "
-                           "8-bit cube (2^24 triples) per chain permutation",
+        "exhaustive_note": "exhaustive over the 8-bit square of every admitted instance and over the stated enumerated alphabets; "
+                           "16/32/64-bit values outside them are not covered; transitivity: full 8-bit cube (2^24 triples) per chain",
         "samples": [{"instance": by_id[s["inst"]].desc(), "K1": by_id[s["inst"]].k1, "K2": by_id[s["inst"]].k2,
                      "common_rep": by_id[s["inst"]].c, "pairs_in_precondition": s["in_pre"],
                      "skipped": s["skip_pre"], "lt_eq_gt": [s["lt"], s["eq"], s["gt"]]}
                     for s in first[:: max(1, len(first) // 6)]][:8],
     })
+    run.cov.update(counters)
     run.assumptions += [
         "remainder means the truncated-division remainder of the exact scaled values (the built-in % / std::fmod "
         "convention); x % 0 and min % -1 in the promoted rep are undefined in C++ and are not executed",
-        "a sum/difference/remainder is judged only when the exact result is representable in the result rep "
-        "(promoted common rep); otherwise it is counted in results_skipped_* and not executed",
-        "floating reps: |result - exact| <= 4 ulp of the common rep at max(|a|,|b|) (a, b = exactly scaled operands); "
-        "comparisons judged only when |a-b| exceeds that; non-finite values are not generated",
-        "which instances compile is observed, not demanded; the policy prediction is logged as domain_mismatch only",
-        "x86-64 LP64, g++ 12 / clang 14; UBSan (-fsanitize=undefined) observes the clang build",
+        "a sum/difference is judged when the exact result is representable in the promoted common rep or in the rep the library "
+        "actually returns; otherwise it is counted in results_skipped_* and not executed. Which rep the result has is recorded, not demanded",
+        "floating reps: when both factors are integers representable in the common rep C and both scaled operands are values of C, "
+        "comparisons are judged exactly and sums/differences to 1 ulp of C at the result; otherwise |result - exact| <= 4 ulp of C at "
+        "max(|a|,|b|) (a, b = exactly scaled operands) and comparisons only when |a-b| exceeds that. NaN / infinite operands have "
+        "no exact value: only the agreement of <=> with the six operators is judged there",
+        "an instance admitted by the policy model must compile (violation otherwise); an instance the model excludes is swept "
+        "when it compiles anyway and is logged as domain_mismatch",
+        "undefined behaviour reported by UBSan on a pair inside the precondition is reported as a violation (the result of an "
+        "evaluation with UB is not 'exactly' anything)",
+        "not covered: compound assignment with a differently-united argument, the Quantity-equivalent (QLike) overloads and comparisons "
+        "with ZERO (outside the statement's operator list)",
+        "x86-64 LP64, g++ 12 / clang 14; UBSan (-fsanitize=undefined) observes the clang c++20 build",
     ]
 
 
@@ -222,8 +292,16 @@ def replay(path):
     cfg = cfg[0] if cfg else core.GXX14
     wd = os.path.join(core.BUILD, "C08", "replay")
     os.makedirs(wd, exist_ok=True)
+    if r.get("kind") == "probe":
+        p = core.Probe(0, r["code"], "accept")
+        res, _ = core.run_probes(cfg, [p], wd, "rp", flags=cflags(cfg))
+        print("observed:", res[0][0], res[0][1][:200])
+        if res[0][0] != "accept":
+            print("VIOLATION property=C08 replay=%s" % path)
+            return 1
+        return 0
     if r.get("kind") == "transitivity":
-        ch, ts, vs = S.run_transitivity(wd, cfg, "thorough")
+        ch, ts, vs, err = S.run_transitivity(wd, cfg, "thorough")
         hit = [v for v in vs if v["op"] == r["chain"]]
         for h in hit[:3]:
             print("reproduced:", json.dumps(h))
@@ -233,14 +311,13 @@ def replay(path):
         print("not reproduced on the current tree")
         return 0
     i = r["instance"]
-    it = S.Inst(0, i["label"], S.Un(i["u1"][0], i["u1"][1], Fr(i["u1"][2])), S.Un(i["u2"][0], i["u2"][1], Fr(i["u2"][2])),
-                i["r1"], i["r2"])
+    it = S.Inst(0, i["label"], S.Un.from_rec(i["u1"]), S.Un.from_rec(i["u2"]), i["r1"], i["r2"])
     it.ops[cfg.name] = i["ops"]
+    o = r["observed"]
     if not it.flt:
         x1, x2 = int(r["x1"]), int(r["x2"])
-        it.iv1, it.iv2, it.square8 = [(x1, x1)], [(x2, x2)], False
+        it.iv1, it.iv2, it.lat1, it.lat2, it.square8, it.dense = [(x1, x1)], [(x2, x2)], [], [], False, 0
     stats, viols = S.build_and_run(wd, cfg, "rp", [it], r.get("flags", []), 0, (-20, 60, 2), nsplit=1)
-    o = r["observed"]
     hit = [v for v in viols if (v["kind"], v["op"], v["order"], v["x1"], v["x2"]) ==
            (o["kind"], o["op"], o["order"], o["x1"], o["x2"])]
     for h in hit:
